@@ -85,7 +85,9 @@ func (x *Exec) evalLets(env *SpecEnv, con *Contract) {
 // ---------- spec checks inside the verified function ----------
 
 func (x *Exec) specEnvHere(fr *Frame, st *State, extra map[string]Val) *SpecEnv {
-	return x.specEnvAt(fr, st, fr.pre, extra)
+	e := x.specEnvAt(fr, st, fr.pre, extra)
+	e.curParams = true
+	return e
 }
 
 func (x *Exec) withSpecErr(where string, f func()) {
